@@ -427,7 +427,8 @@ impl RawUnprocessedJSONArray {
                         !is_carriage_return &&
                         !is_newline &&
                         !is_ascii_control &&
-                        !is_numeric;
+                        !is_numeric &&
+                        !is_minus;
                 if is_not_supported_type {
                     let message = format!("unknown type: {} in {}", char, _json_string);
                     return Err(message);
